@@ -35,7 +35,7 @@ def subset(c: Z.ZMap, a: Z.ZMap):
 
 class SeenSetModel(LibModel):
     modes = ('sound',)
-    props = ('C20', 'C05')
+    props = ('C20', 'C05', 'C04')
 
     def modenv(self):
         return base_modenv()
@@ -215,17 +215,16 @@ class SeenSetCheck(SeenSetModel):
         # (1) True  =>  all_seen or a stored constraint is contained in the lookup (witness: the index being visited)
         j = st.ghost.get('loop_index')
         wit = subset(Z.ZMap(z3.Select(Lh0, j), z3.Select(Lv0, j)), a) if j is not None else z3.BoolVal(False)
-        eng.oblige(st, "C20/check/true-only-if-covered", z3.Implies(z3.And(nonempty, res), z3.Or(all0, wit)))
+        eng.oblige(st, "C20/check/true-only-if-covered", z3.Implies(res, z3.Or(all0, wit)))
         # (2) False =>  not all_seen and NO stored constraint is contained in the lookup (Skolem index)
         i = z3.Int('i_skolem')
         ci = Z.ZMap(z3.Select(Lh0, i), z3.Select(Lv0, i))
         eng.oblige(st, "C20/check/false-only-if-not-covered",
-                   z3.Implies(z3.And(nonempty, z3.Not(res), i >= 0, i < n0), z3.And(z3.Not(all0), z3.Not(subset(ci, a)))),
+                   z3.Implies(z3.And(z3.Not(res), i >= 0, i < n0), z3.And(z3.Not(all0), z3.Not(subset(ci, a)))),
                    hyp=self.instantiate_forall(st, i))
-        # (3) a lookup that binds at least one key changes nothing
+        # (3) a lookup changes nothing (C04 / C05: coverage is only recorded by insertions)
         eng.oblige(st, "C20/check/lookup-is-pure",
-                   z3.Implies(nonempty, z3.And(st.ghost['n'] == n0, st.ghost['Lh'] == Lh0, st.ghost['Lv'] == Lv0,
-                                               st.ghost['all_seen'] == all0)))
+                   z3.And(st.ghost['n'] == n0, st.ghost['Lh'] == Lh0, st.ghost['Lv'] == Lv0, st.ghost['all_seen'] == all0))
 
 
 class SeenSetAdd(SeenSetModel):
